@@ -31,6 +31,8 @@ def check(ctx: Ctx) -> None:
     ctx.rule('C12.R4', 'dictionary keys derived from user-visible names are injective (or collisions are handled)', floor=2)
     ctx.rule('C12.R5', 'one source for the headline figures: every renderer reads income / spending / credits / transfers / cash flow from the analysed stats', floor=4)
     ctx.rule('C12.R6', 'field coverage: every key the report builder reads from a transaction record is written by analyze_transactions (or has a fallback), each copied once', floor=8)
+    ctx.rule('C12.R8', 'every division by a computed total in the output functions is guarded against a zero divisor (all formats render for refund-only / empty data)', floor=4)
+    ctx.rule('C12.R9', 'any bucket decision made outside classification.py (e.g. the per-category type totals of the report) uses the precedence income > investment > transfer of categorize_amount', floor=1)
     ctx.rule('C12.R7', 'every merchant lands in exactly one category/subcategory cell and its total is added once to both levels', floor=7)
     r1_unbound(ctx)
     ws = ctx.proj.func('report.write_summary_file_vue')
@@ -39,6 +41,8 @@ def check(ctx: Ctx) -> None:
     r5_headline(ctx, ws)
     r6_fields(ctx, ws)
     r7_category(ctx, ws)
+    r8_divisions(ctx)
+    r9_precedence(ctx)
 
 
 # --------------------------------------------------------------------------- R1
@@ -98,35 +102,50 @@ def r2_r3(ctx: Ctx, ws: FuncInfo) -> None:
     m = re.search(r'<script>\s*/\* DATA_PLACEHOLDER \*/\s*</script>', html)
     ctx.check(bool(m), 'C12.R2', 'spending_report.html', 'placeholder:in-script', 'DATA placeholder is the content of a <script> element',
               'DATA placeholder not found as the content of a <script> element')
-    assigns = [s for s in fl.cfg.stmts() if isinstance(s, ast.Assign) and src(s.targets[0]) == 'final_html']
-    if len(assigns) < 2:
-        ctx.unknown('C12.R3', ws, f'{len(assigns)} assignments of final_html')
-    for s in assigns:
-        chain = _replace_chain(s.value)
-        if not chain:
-            ctx.unknown('C12.R3', ws, 'final_html is not built by a replace chain', s)
-        embedded = any(isinstance(c.args[0], ast.Constant) and c.args[0].value == '/* DATA_PLACEHOLDER */' for c in chain)
+    seqs = _substitution_sequences(ctx, ws, fl)
+    if len(seqs) < 2:
+        ctx.unknown('C12.R3', ws, f'{len(seqs)} template substitution sequences found (embedded and external mode expected)')
+    for label_node, seq in seqs:
+        # seq: [(placeholder text, value expr, anchor stmt)]
+        embedded = any(ph == '/* DATA_PLACEHOLDER */' for ph, _v, _a in seq)
         if not embedded:
-            # external-files mode: data is written to its own .js file, the HTML only gets static references
-            ok = all(isinstance(c.args[1], ast.Constant) for c in chain)
-            ctx.check(ok, 'C12.R3', ws, 'chain:external', 'external mode: only constant strings are substituted into the HTML', 'external mode substitutes computed text', s)
+            ok = all(isinstance(v, ast.Constant) for _ph, v, _a in seq)
+            ctx.check(ok, 'C12.R3', ws, 'chain:external', 'external mode: only constant strings are substituted into the HTML', 'external mode substitutes computed text', label_node)
             continue
-        order = [c.args[0].value if isinstance(c.args[0], ast.Constant) else src(c.args[0]) for c in chain]
-        data_idx = [i for i, c in enumerate(chain) if 'name:data_script' in fl.atoms(c.args[1], s) or 'call:dumps' in fl.atoms(c.args[1], s)]
-        ok = bool(data_idx) and data_idx[-1] == len(chain) - 1 and len(data_idx) == 1
+        order = [ph for ph, _v, _a in seq]
+        data_idx = [i for i, (_ph, v, a) in enumerate(seq) if ('call:dumps' in fl.atoms(v, a))]
+        ok = bool(data_idx) and data_idx[-1] == len(seq) - 1 and len(data_idx) == 1
         ctx.check(ok, 'C12.R3', ws, 'chain:embedded', f'user data is substituted last ({order})',
                   f'replacement order is {order}: the user data is inserted before {order[data_idx[0] + 1:] if data_idx else "?"}; a description containing that placeholder text '
-                  f'gets the static asset spliced into the JSON (report no longer parses)', s)
-        # R2 on the substituted value
-        val = chain[data_idx[0]].args[1] if data_idx else None
-        if val is not None:
-            _script_safe(ctx, ws, fl, val, s)
+                  f'gets the static asset spliced into the JSON (report no longer parses)', label_node)
+        if data_idx:
+            _ph, val, anchor = seq[data_idx[0]]
+            _script_safe(ctx, ws, fl, val, anchor)
     # static assets contain no placeholder themselves
     for asset in ('spending_report.js', 'spending_report.css'):
         text = proj.read_text(f'src/tally/{asset}')
         bad = [p for p in ('/* DATA_PLACEHOLDER */', '/* JS_PLACEHOLDER */', '/* CSS_PLACEHOLDER */') if p in text]
         ctx.check(not bad, 'C12.R3', asset, 'asset:no-placeholder', 'asset contains no placeholder text', f'asset contains {bad}')
     # (the external spending_data.js is loaded with <script src=…>: its text is not parsed as HTML, nothing to neutralise there)
+
+
+def _substitution_sequences(ctx, ws, fl):
+    """Ordered (placeholder, value) substitutions applied to the HTML template, per output mode.
+    Idioms: a chain t.replace(a, x).replace(b, y)…;  or  v = t; for ph, content in (<literal pairs>): v = v.replace(ph, content)."""
+    out = []
+    for s_ in fl.cfg.stmts():
+        if isinstance(s_, ast.Assign) and isinstance(s_.value, ast.Call):
+            chain = _replace_chain(s_.value)
+            if len(chain) >= 2 and all(isinstance(c.args[0], ast.Constant) and 'PLACEHOLDER' in str(c.args[0].value) for c in chain):
+                out.append((s_, [(c.args[0].value, c.args[1], s_) for c in chain]))
+        if isinstance(s_, ast.For) and isinstance(s_.iter, (ast.Tuple, ast.List)) and isinstance(s_.target, ast.Tuple) and len(s_.target.elts) == 2:
+            ph_var, val_var = [e.id for e in s_.target.elts if isinstance(e, ast.Name)][:2] if all(isinstance(e, ast.Name) for e in s_.target.elts) else (None, None)
+            body_ok = len(s_.body) == 1 and isinstance(s_.body[0], ast.Assign) and isinstance(s_.body[0].value, ast.Call) and call_name(s_.body[0].value) == 'replace' \
+                and [src(a) for a in s_.body[0].value.args] == [ph_var, val_var]
+            pairs = [e for e in s_.iter.elts if isinstance(e, ast.Tuple) and len(e.elts) == 2 and isinstance(e.elts[0], ast.Constant)]
+            if body_ok and len(pairs) == len(s_.iter.elts) and any('PLACEHOLDER' in str(p.elts[0].value) for p in pairs):
+                out.append((s_, [(p.elts[0].value, p.elts[1], s_) for p in pairs]))
+    return out
 
 
 def _script_safe(ctx, ws, fl, val, at, label='script-safe:embedded') -> None:
@@ -353,3 +372,148 @@ def r7_category(ctx: Ctx, ws: FuncInfo) -> None:
                  f'{level}:{fld}', f'{level} {fld} += merchant {fld}, once', f'{level} {fld} accumulation')
     rets = [r for r in ast.walk(bc.node) if isinstance(r, ast.Return)]
     ctx.check(len(rets) == 1 and src(rets[0].value) == 'categories', 'C12.R7', bc, 'return', 'returns the grouped categories', 'category view is not what is returned')
+
+
+# --------------------------------------------------------------------------- R8
+def r8_divisions(ctx: Ctx) -> None:
+    proj = ctx.proj
+    n = 0
+    for short in ('analyzer', 'report'):
+        mi = proj.module(short)
+        for f in [x for x in proj.all_funcs() if x.module is mi]:
+            fl = None
+            for node in all_nodes(f.node):
+                if not (isinstance(node, ast.BinOp) and isinstance(node.op, (ast.Div, ast.FloorDiv, ast.Mod))):
+                    continue
+                if isinstance(node.left, ast.Constant) and isinstance(node.left.value, str):
+                    continue     # '%' string formatting
+                d = node.right
+                if isinstance(d, ast.Constant):
+                    continue
+                if isinstance(node.op, ast.Div) and isinstance(node.left, (ast.Call, ast.Name, ast.Attribute)) and 'Path' in src(node.left) + src(node.right) or \
+                        any(k in src(d) for k in ("'spending_report", 'template', '.html', '.css', '.js')) or 'dir' in src(node.left):
+                    continue     # pathlib joins
+                n += 1
+                names = {x.id for x in ast.walk(d) if isinstance(x, ast.Name)} | {src(x) for x in ast.walk(d) if isinstance(x, (ast.Subscript, ast.Attribute))}
+                dtext = src(d)
+                guarded = False
+                # x / d if d > 0 else 0   |   inside a comprehension `if`   |   statement-level guard
+                child = node
+                for a in ancestors(node):
+                    if isinstance(a, ast.IfExp) and child is a.body and _mentions_positive(a.test, dtext, names):
+                        guarded = True
+                    if isinstance(a, ast.IfExp) and child is a.orelse and _mentions_nonpositive(a.test, dtext, names):
+                        guarded = True
+                    if isinstance(a, ast.stmt):
+                        break
+                    child = a
+                if not guarded:
+                    fl = fl or get_flow(proj, f)
+                    if fl.cfg.has(node):
+                        for atom, truth in fl.cfg.guard_atoms(fl.stmt_of(node)):
+                            if truth and _mentions_positive(atom, dtext, names):
+                                guarded = True
+                            if (not truth) and _mentions_nonpositive(atom, dtext, names):
+                                guarded = True
+                # the number of months of the analysis is never 0 by construction (checked on the producer)
+                if not guarded:
+                    fl = fl or get_flow(proj, f)
+                    if fl.cfg.has(node) and any(x.startswith('key:') and x.endswith(':num_months') for x in fl.atoms(d, node)) or src(d) == 'num_months' and 'num_months' in f.params:
+                        guarded = _num_months_nonzero(proj)
+                ctx.check(guarded, 'C12.R8', f, f'div:{dtext[:30]}', f'{src(node)[:50]} guarded against a zero divisor',
+                          f'`{src(node)[:60]}` divides by {dtext} without a guard: with no positive total (refund-only data, all merchants net negative) this raises ZeroDivisionError and the '
+                          f'output format fails to render', node)
+    ctx.need(n >= 4, f'C12.R8: only {n} divisions found in analyzer/report')
+
+
+def _num_months_nonzero(proj) -> bool:
+    an = proj.func('analyzer.analyze_transactions')
+    defs = [n for n in ast.walk(an.node) if isinstance(n, ast.Assign) and src(n.targets[0]) == 'num_months']
+    ok = bool(defs)
+    for dn in defs:
+        v = dn.value
+        ok = ok and isinstance(v, ast.IfExp) and src(v.body).startswith('len(') and src(v.test) in src(v.body) and isinstance(v.orelse, ast.Constant) \
+            and isinstance(v.orelse.value, int) and v.orelse.value > 0
+    return ok
+
+
+def _mentions_positive(test, dtext, names) -> bool:
+    t = src(test).replace(' ', '')
+    d = dtext.replace(' ', '')
+    if t in (f'{d}>0', f'{d}!=0', d, f'{d}>=1', f'0<{d}'):
+        return True
+    if isinstance(test, ast.BoolOp) and isinstance(test.op, ast.And):
+        return any(_mentions_positive(v, dtext, names) for v in test.values)
+    # len(vals) >= 2 guards a division by len(vals); so does the truthiness of vals
+    if d.startswith('len(') and (t.startswith(f'{d}>=') or t.startswith(f'{d}>') or t == d[4:-1]):
+        return True
+    return False
+
+
+def _mentions_nonpositive(test, dtext, names) -> bool:
+    t = src(test).replace(' ', '')
+    d = dtext.replace(' ', '')
+    return t in (f'{d}==0', f'not{d}', f'{d}<=0', f'{d}<1') or (d.startswith('len(') and t.startswith(f'{d}<'))
+
+
+# --------------------------------------------------------------------------- R9
+SPECIAL_ORDER = ['income', 'investment', 'transfer']
+
+
+def _tag_of_test(test) -> Optional[str]:
+    """'income' for `'income' in tags`, `INCOME_TAG in x`, `is_income(x)`."""
+    if isinstance(test, ast.Compare) and len(test.ops) == 1 and isinstance(test.ops[0], ast.In):
+        l = test.left
+        if isinstance(l, ast.Constant) and l.value in SPECIAL_ORDER:
+            return l.value
+        if isinstance(l, ast.Name) and l.id.endswith('_TAG') and l.id[:-4].lower() in SPECIAL_ORDER:
+            return l.id[:-4].lower()
+    if isinstance(test, ast.Call) and isinstance(test.func, ast.Name) and test.func.id.startswith('is_') and test.func.id[3:] in SPECIAL_ORDER:
+        return test.func.id[3:]
+    return None
+
+
+def r9_precedence(ctx: Ctx) -> None:
+    proj = ctx.proj
+    # reference order from categorize_amount's own chain
+    ca = proj.func('classification.categorize_amount')
+    ref = _chain_order(ca.node)
+    if ref != [SPECIAL_ORDER]:
+        # C06 decides whether categorize_amount itself is right; here only agreement matters
+        ref_order = ref[0] if ref else SPECIAL_ORDER
+    else:
+        ref_order = SPECIAL_ORDER
+    n = 0
+    for short in ('report', 'analyzer', 'commands.explain', 'commands.run', 'commands.discover'):
+        mi = proj.module(short)
+        for f in [x for x in proj.all_funcs() if x.module is mi]:
+            for order in _chain_order(f.node, collect_nodes=True):
+                tags, node = order
+                if len(tags) < 2:
+                    continue
+                n += 1
+                want = [t for t in ref_order if t in tags]
+                ctx.check(tags == want, 'C12.R9', f, f'precedence:{"-".join(tags)}', f'bucket chain tests {tags} in the precedence of categorize_amount',
+                          f'this if/elif chain decides the bucket in the order {tags}, categorize_amount uses {want}: a payment tagged with two special tags lands in different buckets '
+                          f'in the per-category breakdown and in the headline figures', node)
+    if n == 0:
+        ctx.ok('C12.R9', 'report', 'no bucket decision chain outside classification.py', construct='precedence:none')
+
+
+def _chain_order(fnode, collect_nodes=False):
+    out = []
+    seen = set()
+    for n in ast.walk(fnode):
+        if isinstance(n, ast.If) and id(n) not in seen:
+            tags = []
+            cur = n
+            while isinstance(cur, ast.If):
+                seen.add(id(cur))
+                t = _tag_of_test(cur.test)
+                if t is None:
+                    break
+                tags.append(t)
+                cur = cur.orelse[0] if len(cur.orelse) == 1 and isinstance(cur.orelse[0], ast.If) else None
+            if tags:
+                out.append((tags, n) if collect_nodes else tags)
+    return out
